@@ -276,22 +276,30 @@ func (a *Allocator) Allocate(sz int) []byte {
 	}
 	for {
 		pos := atomic.AddUint64(&a.compIdx, uint64(sz))
+		verifObserve(vpAllocAdded, pos, uint64(sz))
+		verifPoint(vpAllocAdded)
 		bufIdx, posIdx := parse(pos)
 		buf := a.buffers[bufIdx]
 		if posIdx > len(buf) {
+			verifPoint(vpAllocBeforeLock)
 			a.Lock()
 			newPos := atomic.LoadUint64(&a.compIdx)
 			newBufIdx, _ := parse(newPos)
 			if newBufIdx != bufIdx {
 				a.Unlock()
+				verifObserve(vpAllocRetry, 0, 0)
+				verifPoint(vpAllocRetry)
 				continue
 			}
 			a.addBufferAt(bufIdx+1, sz)
 			atomic.StoreUint64(&a.compIdx, uint64((bufIdx+1)<<32))
 			a.Unlock()
+			verifObserve(vpAllocRetry, 1, 0)
+			verifPoint(vpAllocRetry)
 			// We added a new buffer. Let's acquire slice the right way by going back to the top.
 			continue
 		}
+		verifObserve(vpAllocDone, uint64(bufIdx), uint64(posIdx))
 		data := buf[posIdx-sz : posIdx]
 		return data
 	}
